@@ -1,10 +1,14 @@
 ------------------------------ MODULE Gen_Feed ------------------------------
 EXTENDS MC_Feed, Json
 CONSTANT Depth
-VARIABLE hist
-GenInit == Init /\ hist = <<>>
-GenNext == /\ Len(hist) < Depth
+VARIABLES hist,
+          fin   \* the behaviour is complete: printed once, from the single successor of its last state (in -simulate mode
+                \* TLC evaluates invariants on every candidate successor, which would print all siblings of the last step)
+GenInit == Init /\ hist = <<>> /\ fin = FALSE
+GenStep == /\ Len(hist) < Depth
            /\ \E e \in Actions : Do(e) /\ hist' = Append(hist, [a |-> e, exp |-> Proj'])
-GenSpec == GenInit /\ [][GenNext]_<<vars, hist>>
-Emit == Len(hist) = Depth => PrintT(<<"REPLAY", ToJson(hist)>>)
+GenNext == \/ ~fin /\ GenStep /\ UNCHANGED fin
+           \/ ~fin /\ Len(hist) = Depth /\ fin' = TRUE /\ UNCHANGED <<vars, hist>>
+GenSpec == GenInit /\ [][GenNext]_<<vars, hist, fin>>
+Emit == fin => PrintT(<<"REPLAY", ToJson(hist)>>)
 =============================================================================
